@@ -1,3 +1,4 @@
 import Norad.Props.C11
 import Norad.Props.C06
 import Norad.Props.C03
+import Norad.Props.C18
